@@ -11,6 +11,10 @@ def lemma(run):
     run.add_tlc(res, "MC_Policy: ImplAllowed => Granted, full product")
     if res.violated:
         raise common.MachineryFailure("decision lemma ImplAllowed => Granted fails on the specification: %s" % res.violated)
+    # the same lemma for ALL policies, identities and operations: machine-checked proof (TLAPS)
+    nob = tlc.tlaps("PolicyLemmaProof", deps=("KmipPolicy",))
+    run.extra["tlaps_proof"] = {"module": "spec/tlaps/PolicyLemmaProof.tla", "theorem": "ImplAllowed => Granted (unbounded)",
+                                "obligations_proved": nob}
 
 
 def check(run, tier):
